@@ -968,6 +968,38 @@ func runC03(p *core.Prog, r *core.Report, tier string) {
 					mn = strings.TrimPrefix(strings.ToLower(ad.Args[0].String()), "var:")
 				}
 				ok := strings.Contains(mn, pn) || strings.Contains(pn, mn) || (pn == "committeesatslot" && strings.Contains(mn, "committeesatslot")) || (strings.Contains(pn, "committeesize") && strings.Contains(mn, "committeelength"))
+				// decided by content rather than by the local's name: the collection looked up holds the field of the
+				// beacon node's duties that this parameter of NewDuty stands for
+				if want, known := map[string]string{"validatorindices": "ValidatorIndex", "committeeindices": "CommitteeIndex", "validatorcommitteeindices": "ValidatorCommitteeIndex", "committeelengths": "CommitteeLength", "committeesizes": "CommitteeLength", "committeesatslot": "CommitteesAtSlot"}[pn]; known {
+					if mk, isMk := ad.Args[0].Val.(*ssa.MakeMap); isMk {
+						got := map[string]bool{}
+						core.EachInstr(f, func(in ssa.Instruction) {
+							mu, isMu := in.(*ssa.MapUpdate)
+							if !isMu {
+								return
+							}
+							into := mu.Map == ssa.Value(mk)
+							if lk, isLk := mu.Map.(*ssa.Lookup); isLk && lk.X == ssa.Value(mk) {
+								into = true
+							}
+							if !into {
+								return
+							}
+							ds.D(mu.Value).Walk(func(x *core.VD) bool {
+								if x.Kind == "field" {
+									got[x.Name] = true
+								}
+								return true
+							})
+						})
+						ok = got[want]
+						for _, other := range []string{"ValidatorIndex", "CommitteeIndex", "ValidatorCommitteeIndex", "CommitteeLength", "CommitteesAtSlot"} {
+							if other != want && got[other] {
+								ok = false
+							}
+						}
+					}
+				}
 				r.Check(ok, "C03.j", "MergeDuties|NewDuty-arg|"+callee.Params[i].Name(), p.Pos(ci.Pos()), callee.Params[i].Name()+" <- "+ad.String(), "NewDuty's "+callee.Params[i].Name()+" receives "+ad.String())
 			}
 		}
